@@ -10,6 +10,8 @@ class LoopSpec:
     inv: dict = field(default_factory=dict)      # clause name -> expr text
     index: str = '_i'                              # ghost index for loops over sequences
     done: str = '_done'                            # ghost processed-subset for loops over sets/dicts
+    frame: list = field(default_factory=list)      # invariant clauses that are frame equalities on havoced state: assumed with representation
+                                                   # equality (the havoced state's representation of untouched entries is ours to choose), proved extensionally
     decreases: str | None = None                   # while loops: integer measure
     assume: dict = field(default_factory=dict)     # axiom instances assumed at the loop head (name -> expr text)
 
